@@ -451,9 +451,20 @@ class Analyzer:
                 tt = blk["t"]
                 if tt["k"] == "call":
                     d = fl.node(tt["dest"])
-                    if d not in derived and any(fl.node(op_place(a)) in derived for a in tt["args"] if op_place(a)):
+                    hit = any(fl.node(op_place(a)) in derived for a in tt["args"] if op_place(a))
+                    if d not in derived and hit:
                         derived.add(d)
                         changed = True
+                    if hit:
+                        # out-parameters: whatever a `&mut` argument points to may now hold element data
+                        tys = tt.get("arg_tys", [])
+                        for i, a in enumerate(tt["args"]):
+                            if i < len(tys) and tys[i].startswith("&mut ") and op_place(a):
+                                r = self.root_local(f, fl.node(op_place(a)))
+                                for z in (r, fl.node(op_place(a))):
+                                    if z is not None and z not in derived and z != x:
+                                        derived.add(z)
+                                        changed = True
         return derived
 
     def outer_locals(self, f, body):
@@ -1049,8 +1060,14 @@ def check_digest_order(prog, A, R, table, used_table):
                         ok, why = digest_derived(A, f, fl.node(kp))
                         if ok:
                             keyed_by_digest = why
-        if not keyed_by_digest:
+        # Byte-string keys are names or digests; both can contain generated-name material
+        # (`cse_$_N`, `letbinding_$_N`, hashes of renamed forms), whose ORDER depends on the
+        # fresh-name counter (e.g. `x_$_1000` < `x_$_999`).  Key type decides, not provenance.
+        bytes_keyed = bool(re.match(r"^(&mut |&)?std::collections::BTree(Map|Set)<std::vec::Vec<u8>[,>]", rty))
+        if not keyed_by_digest and not bytes_keyed:
             continue
+        if not keyed_by_digest:
+            keyed_by_digest = "byte-string keys (names/digests may contain generated names)"
         n_src += 1
         recv = A.describe_receiver(f, t)
         key = "R05.b|%s|%s.%s" % (f.path, recv, last_seg(callee_of(t)))
@@ -1092,8 +1109,9 @@ def check_digest_order(prog, A, R, table, used_table):
             R.ob("R05.b", key, f.loc(bb), "table: %s — %s" % (table[key]["class"], table[key]["reason"]), fn=f.path)
         else:
             R.viol("R05.b", key, f.loc(bb),
-                   "%s iterates a B-tree keyed by a tree digest (%s) and consumes it order-sensitively: %s. Digests of "
-                   "forms contain generated names, so this order depends on the fresh-name counter, i.e. on what was "
-                   "compiled earlier in the process" % (f.path, keyed_by_digest,
+                   "%s iterates a B-tree ordered by byte strings that may embed generated names [%s] and consumes it "
+                   "order-sensitively: %s. Generated names (`x_$_N`) and digests of forms containing them sort differently "
+                   "for different values of the fresh-name counter, so this order depends on what was compiled earlier in "
+                   "the process" % (f.path, keyed_by_digest,
                                                         "; ".join("%s @%s" % (x.what, x.site) for x in sens[:4])), fn=f.path)
     R.counts["digest-ordered iteration sources"] = n_src
